@@ -224,12 +224,26 @@ impl Nfa {
         match expr.kind() {
             HirKind::Empty => Ok(accept),
 
-            HirKind::Literal(Literal(l)) => Ok(l.iter().rev().fold(accept, |accept, &b| {
-                let s0 = self.new_state(StateKind::Neither);
-                self.push_edge(s0, Test::byte(b), accept);
-                self.push_edge(s0, Other, reject);
-                s0
-            })),
+            HirKind::Literal(Literal(l)) => {
+                // Edge labels are code points, as for `Class::Unicode`, but a literal is
+                // stored as its UTF-8 encoding: decode it, so that `é` and `[èé]` overlap.
+                // (In byte mode classes are byte ranges, and so are literals.)
+                let decoded = if cfg!(feature = "unicode") {
+                    std::str::from_utf8(l).ok()
+                } else {
+                    None
+                };
+                let tests: Vec<Test> = match decoded {
+                    Some(s) => s.chars().map(Test::char).collect(),
+                    None => l.iter().map(|&b| Test::byte(b)).collect(),
+                };
+                Ok(tests.into_iter().rev().fold(accept, |accept, test| {
+                    let s0 = self.new_state(StateKind::Neither);
+                    self.push_edge(s0, test, accept);
+                    self.push_edge(s0, Other, reject);
+                    s0
+                }))
+            }
 
             HirKind::Class(class) => {
                 match *class {
